@@ -163,4 +163,21 @@ def verdictOf (tags : String) (checks : List (String × Bool × String)) : Verdi
   | none => .ok tags
   | some (c, d) => .fail c d
 
+/-- the IEEE-754 double nearest to a positive rational (round to nearest, ties to even), for values
+in the normal range: what a single float64 multiplication or division of exact operands returns -/
+def roundF64 (r : Rat) : Rat :=
+  if r ≤ 0 then (if r == 0 then 0 else -(roundF64pos (-r))) else roundF64pos r
+where
+  roundF64pos (r : Rat) : Rat :=
+    -- find e with 2^52 ≤ r / 2^e < 2^53
+    let a : Int := (Nat.log2 r.num.toNat : Int) - (Nat.log2 r.den : Int)
+    let e0 : Int := a - 52
+    let m0 := r / pow2 e0
+    let e : Int := if m0 < pow2 52 then e0 - 1 else if m0 ≥ pow2 53 then e0 + 1 else e0
+    let m := r / pow2 e
+    let fl := m.floor
+    let frac := m - fl
+    let mi : Int := if frac < 1 / 2 then fl else if frac > 1 / 2 then fl + 1 else (if fl % 2 == 0 then fl else fl + 1)
+    (mi : Rat) * pow2 e
+
 end MV
